@@ -71,6 +71,9 @@ func runURNOps(o *hx.Opts, r *hx.Rand, res *hx.Result, em *emitter) {
 			aff := ""
 			if rr.Chance(1, 4) {
 				aff = hx.Pick(rr, opChans).UUID
+				if rr.Chance(1, 4) {
+					aff = chDangling // ?channel= of a channel that is not in the assets: kept in the query, pointer nil
+				}
 			}
 			tc.Slots = append(tc.Slots, genSlot(rr, scheme, aff, 0, rr.Chance(1, 6)))
 		}
